@@ -130,6 +130,15 @@ func nz(s, d string) string {
 	return s
 }
 
+func hasOperatorToken(s string) bool {
+	for _, tok := range strings.FieldsFunc(s, func(r rune) bool { return r == ' ' || r == '(' || r == ')' }) {
+		if tok == "AND" || tok == "OR" {
+			return true
+		}
+	}
+	return false
+}
+
 func hasRepeat(l []string) bool {
 	seen := map[string]bool{}
 	for _, s := range l {
@@ -228,7 +237,10 @@ func buildPool(c *Ctx, n int) []poolStr {
 		p := pool[i]
 		for _, tw := range []string{strings.ToLower(p.S), strings.ToUpper(p.S)} {
 			if tw != p.S {
-				pool = append(pool, poolStr{S: tw, Compound: p.Compound, Origin: "case-twin", Twin: i + 1})
+				// upper-casing turns a lower-case "or"/"and" into a real operator (and lower-casing does the reverse), so the
+				// twin's compound flag is recomputed from its own text: in a valid string a token AND / OR delimited by
+				// spaces or parentheses is an operator
+				pool = append(pool, poolStr{S: tw, Compound: hasOperatorToken(tw), Origin: "case-twin", Twin: i + 1})
 			}
 		}
 	}
